@@ -52,6 +52,8 @@ type Shape struct {
 	ReplaceQuotes bool `json:"replace_quotes,omitempty"`
 	// FLRows is the number of rows of the multi-row fixedlength2 layout (variant 1): 0 means 2; FLBlank puts a
 	// blank line between the rows of a record (blank lines are skipped by the reader).
+	// QuoteInFilter: the filter's literal contains an apostrophe (token SK'P, written in double quotes in the xpath)
+	QuoteInFilter bool `json:"quote_in_filter,omitempty"`
 	// Grouped (xml): every record sits in its own <grp t="A"> element, records the filter rejects in <grp t="B">; the
 	// record filter is then a predicate on a NON-final step of the FINAL_OUTPUT xpath (/root/grp[@t='A']/rec).
 	Grouped bool `json:"grouped,omitempty"`
@@ -176,6 +178,9 @@ func DrawShape(t *rapid.T, o ShapeOpts) Shape {
 	}
 	if !o.NoFilter {
 		s.Filter = rapid.IntRange(0, 3).Draw(t, "filter") == 0
+		if s.Format != "edi" {
+			s.QuoteInFilter = rapid.IntRange(0, 2).Draw(t, "quoteInFilter") == 0
+		}
 	}
 	if len(o.Encodings) > 0 {
 		s.Encoding = rapid.SampledFrom(o.Encodings).Draw(t, "encoding")
@@ -284,10 +289,7 @@ func DrawRec(t *rapid.T, s Shape, label string, kind int, o ValueOpts) Rec {
 	}
 	if s.Filter && s.IntCol != 0 {
 		if kind == 2 {
-			r.Vals[0] = "SKIP"
-			if len(s.Widths) > 0 && s.Widths[0] < 4 {
-				r.Vals[0] = "SKIP"[:s.Widths[0]]
-			}
+			r.Vals[0] = s.SkipToken()
 		} else if strings.HasPrefix(r.Vals[0], s.SkipToken()) {
 			r.Vals[0] = "k"
 		}
@@ -311,10 +313,14 @@ func DrawRec(t *rapid.T, s Shape, label string, kind int, o ValueOpts) Rec {
 
 // SkipToken is the c0 value the FINAL_OUTPUT filter rejects.
 func (s Shape) SkipToken() string {
-	if len(s.Widths) > 0 && s.Widths[0] < 4 {
-		return "SKIP"[:s.Widths[0]]
+	tok := "SKIP"
+	if s.QuoteInFilter {
+		tok = "SK'P"
 	}
-	return "SKIP"
+	if len(s.Widths) > 0 && s.Widths[0] < 4 {
+		return tok[:s.Widths[0]]
+	}
+	return tok
 }
 
 // DrawRecs draws a list of records with a mixture of normal, failing and filtered-out ones.
@@ -357,6 +363,13 @@ func (s Shape) finalOutputXPath() string {
 	filter := ""
 	if s.Filter && s.IntCol != 0 {
 		filter = fmt.Sprintf("[not(starts-with(c0,'%s'))]", s.SkipToken())
+		if strings.Contains(s.SkipToken(), "'") {
+			filter = fmt.Sprintf("[not(starts-with(c0,\"%s\"))]", s.SkipToken())
+		}
+	}
+	if s.Format == "xml" && filter != "" && s.QuoteInFilter {
+		// attribute filter (decidable when the element starts) with a mixed-quote literal
+		filter = `[not(@k="SK'P")]`
 	}
 	switch s.Format {
 	case "json":
@@ -430,6 +443,11 @@ func (s Shape) transformDecls() obj {
 			obj{"const": "(typeof _node === 'undefined' ? 'clean' : 'leak:' + _node) + (typeof x === 'undefined' ? '' : '/x:' + x)"}}}}
 		fields["js2"] = obj{"custom_func": obj{"name": "javascript", "args": []interface{}{
 			obj{"const": "typeof b === 'undefined' ? a.toUpperCase() : 'leak'"}, obj{"const": "a"}, obj{"xpath": "c0"}}}}
+	case 4:
+		// external properties: a plain one and one that supplies an xpath (callers must pass "tag" and "xp")
+		fields["tag"] = obj{"external": "tag"}
+		fields["viaext"] = obj{"xpath_dynamic": obj{"external": "xp"}}
+		fields["viaext2"] = obj{"object": obj{"v": obj{"xpath_dynamic": obj{"external": "xp"}, "no_trim": true}}}
 	case 3:
 		// cache-sensitive flavour: textually identical declarations at different positions, xpath_dynamic,
 		// javascript_with_context on the record and on its parent (which changes between records)
@@ -448,6 +466,11 @@ func (s Shape) transformDecls() obj {
 		// declarations evaluated on the record's parent, a node that outlives the record and whose content
 		// (the current record as its last element child) changes from record to record
 		fields["anc"] = obj{"xpath": "..", "object": obj{"lastc0": obj{"xpath": "*[last()]/c0"}, "l": obj{"xpath": "*[last()]/" + last}}}
+		// a script that throws (error ignored) followed by a probe: nothing of the failed call may be left in a pooled VM
+		fields["jthrow"] = obj{"custom_func": obj{"name": "javascript", "ignore_error": true, "args": []interface{}{
+			obj{"const": "x.length + null.boom"}, obj{"const": "x"}, obj{"xpath": "c0", "no_trim": true}}}}
+		fields["jz"] = obj{"custom_func": obj{"name": "javascript", "args": []interface{}{
+			obj{"const": "typeof x === 'undefined' ? 'clean' : 'leak:' + x"}}}}
 		fields["pjs"] = obj{"xpath": "..", "custom_func": obj{"name": "javascript_with_context", "args": []interface{}{
 			obj{"const": "JSON.stringify(JSON.parse(_node)).length"}}}}
 		decls["tpl"] = obj{"object": obj{"first": obj{"xpath": "c0"}, "js": obj{"custom_func": obj{"name": "javascript", "args": []interface{}{
@@ -923,7 +946,15 @@ func (s Shape) RenderParts(recs []Rec) (pro string, parts []string, epi string) 
 		}
 		for _, r := range recs {
 			var b strings.Builder
-			b.WriteString("<rec>")
+			if s.Filter && s.IntCol != 0 && s.QuoteInFilter {
+				k := "ok"
+				if strings.HasPrefix(r.Vals[0], s.SkipToken()) {
+					k = "SK'P"
+				}
+				b.WriteString(`<rec k="` + k + `">`)
+			} else {
+				b.WriteString("<rec>")
+			}
 			for j, v := range r.Vals {
 				fmt.Fprintf(&b, "<%s>%s</%s>", colName(j), xmlEscape(v), colName(j))
 				if j == 0 && r.Dup {
